@@ -6,6 +6,12 @@ RewriteRule.try_rewrite and onnxscript.ir.convenience.replace_nodes_and_values (
 application; the oracle then checks validity (onnx.checker + vf.wellformed), equivalence on ONNX Runtime, the graph
 signature, that exactly the matched nodes are gone, that every other node/initializer/metadata is untouched, and that
 the rule applied at least once iff vf.c06_spec.match_spec finds a (removable) instance in a graph the rewriter visits.
+
+A second block of rule kinds (KINDS2) covers replacements that create several constants in one application and rules that are
+applied with commute=True to hosts whose commutative nodes have their operands in either order; for these the oracle also checks,
+per application, that every constant the replacement asked op.initializer for is the constant it got back and is consumed by the
+new nodes as a registered initializer, that the function a new node calls exists, that a rule with remove_nodes=False hands no
+node over for removal, and that no replacement is built for a match the rule's condition function did not accept.
 """
 from __future__ import annotations
 
@@ -24,7 +30,16 @@ RULE = (
     "If/Loop bodies with enclosing values literally named val_0/val_1 that the bodies consume} x k in {0,1,2,3+} planted "
     "instances (chained / overlapping, results used as graph outputs and inside subgraphs), nodes with metadata_props; every host passes "
     "onnx.checker(full) and runs on ORT before use.  non-trivial = the rule applied >=1 time; distinct = (rule kind, where the applications "
-    "happened, #applications capped at 3)"
+    "happened, #applications capped at 3).  "
+    "SECOND BLOCK (130 / 3900 further pairs, every (kind, stratum) once per round, k rotating): (a) replacements that create SEVERAL constants in one "
+    "application, Sub(x,y) -> Sub(Add(Mul(x,one),zero),y): two initializers under distinct names / under ONE explicit name with different contents / "
+    "named only by the tensors' own identical name / under a name derived from the matched value / the same name and contents twice next to a "
+    "different constant / one name for an int64 [0] (Unsqueeze/Squeeze axes) and a float32 [0.] / two Constant nodes; (b) rules applied with "
+    "commute=True, through rewrite(model, RewriteRuleSet([rule], commute=True)) and (a third of the pairs) rule.apply_to_model(model, commute=True), "
+    "to hosts that write the commutative node of each planted instance with its operands in either order (Add(Relu(a),b) / Add(b,Relu(a)), "
+    "Mul(a,1) / Mul(1,a), near misses Mul(a,2)): as_function=True, remove_nodes=False, a pattern constant, a condition function that alone "
+    "decides (Mul(x,c) if c is the constant 1), a replacement adding an initializer, a replacement in a custom domain; an application counts as "
+    "'through a swapped variant' when the matched nodes are no instance of the pattern as written (match_spec without commutation)"
 )
 ASSUMPTIONS = [
     "ONNX Runtime (optimisations off) decides equivalence; onnx.reference may only dispute",
@@ -37,6 +52,15 @@ ASSUMPTIONS = [
     "touched and that is still an instance afterwards was skipped",
     "match_spec (C06) decides whether an instance exists; Constant-node outputs in the main graph and in functions count as constants because "
     "apply_to_model runs basic constant propagation there first",
+    "commute=True means: the pattern under every operand swap of its Add/Mul node patterns (match_spec's S10, the documented meaning), with every "
+    "other setting of the rule unchanged",
+    "constants a replacement asks for are compared by content and element type, not by identity or name: sharing one initializer between two "
+    "requests of equal content, and renaming, are allowed; the check that the new nodes consume the requested constants is skipped for an "
+    "application one of whose nodes a later application replaced again",
+    "the rewriter evaluates a rule's condition function for every match before it builds the replacement (RewriteRule's documented contract); the "
+    "test rules decline (return None) to build a replacement that was not preceded by a yes, so a rule set that ignores a guard cannot re-match its "
+    "own output for ever; more than 200 replacements on one host are reported as a runaway",
+    "rule.apply_to_model() is not followed by rewrite()'s clean-up passes: nodes/functions that are dead afterwards may stay",
 ]
 ANCHORS = [
     "onnxscript.rewriter._rewrite_rule:RewriteRuleSet._apply_to_graph_or_function",
@@ -58,20 +82,66 @@ PLANT = {"reneg": "neg", "resub": "sub", "resub2": "sub", "swapadd": "add", "swa
 STRATA = ["flat", "cf", "fn", "cf+fn", "cfonly"]   # cfonly: instances only inside If/Loop bodies, outer values named val_0/val_1
 CLASH = "c07_zero"
 
+# ---- second block of rule kinds (added after seeded defects C07-5 / C07-6)
+# (a) one application of the replacement creates SEVERAL constants: two initializers under distinct names / one explicit name with
+#     different contents / the tensors' own (identical) name / a name derived from the matched value / the same name and contents
+#     twice next to a different one / one name for an int64 [0] and a float32 [0.] / two Constant nodes;
+# (b) the rule is applied with commute=True (RewriteRuleSet([rule], commute=True) or rule.apply_to_model(model, commute=True)) and the hosts
+#     write the commutative node of an instance with its operands in either order: every setting of the rule (as_function,
+#     remove_nodes=False, the condition function, new initializers, a custom-domain replacement) must hold for the swapped variants too.
+MULTI_CONST_KINDS = ["init2_distinct", "init2_same", "init2_tname", "init2_derived", "init2_dup", "init2_dtype", "const2"]
+COMMUTE_KINDS = ["c_asfn", "c_keep", "c_mul1", "c_cond", "c_init", "c_custom"]
+KINDS2 = MULTI_CONST_KINDS + COMMUTE_KINDS
+PLANT.update({k: "sub" for k in MULTI_CONST_KINDS})
+PLANT.update({"c_asfn": "reluadd", "c_keep": "reluadd", "c_mul1": "mul1c", "c_cond": "mul1c", "c_init": "reluadd", "c_custom": "reluadd"})
+ASFN = {"asfn": "SubRelu", "asfn_diamond": "SubReluNeg", "c_asfn": "ReluAdd"}   # as_function kinds -> name of the extracted function
+FUSED_DOMAIN = "c07.fused"
+
+
+def adds_init(kind):
+    """The replacement creates initializers (the rewriter documents that such a rule is refused inside functions)."""
+    return kind.startswith("init") or kind == "c_init"
+
+
+def is_commute(kind):
+    return kind in COMMUTE_KINDS
+
+
+def keeps_nodes(kind):
+    return kind in ("keep", "c_keep")
+
+
+def _sizes(tier):
+    """(#pairs of the first block of kinds, #pairs of the second block)."""
+    return (400, 130) if tier == "quick" else (12000, 3900)
+
 
 def thresholds(tier):
-    n = 400 if tier == "quick" else 12000
+    n, n2 = _sizes(tier)
     return {"pairs_checked": n // 5, "applications": n // 3, "try_rewrite_calls": n * 2, "replace_calls": n // 3, "ort_compared": n // 4,
             "app_in_subgraph": n // 80, "app_in_function": n // 80, "app_output_is_graph_output": n // 40, "app_output_used_in_nested_body": n // 100,
             "app_on_node_created_by_earlier_app": n // 200, "count_checked": n // 5, "pairs_applied_in_subgraphs_only": n // 40,
             "subgraph_only_multi_node_replacement": n // 200, "multi_application": n // 20, "no_application_no_instance": n // 80,
             "distinct_nontrivial": 15,
+            **_thresholds2(n2),
             "anchor:onnxscript.rewriter._rewrite_rule:_copy_for_function": n // 200,
             "anchor:onnxscript.rewriter._rewrite_rule:_update_opset_imports": n // 3}
 
 
+def _thresholds2(n2):
+    # the unchanged tree gives (quick, n2=120, seeds 0 1 2 3 7) at least five times these numbers
+    return {"pairs_multi_const": n2 // 10, "pairs_commute": n2 // 10, "multi_const_applications": n2 // 5,
+            "same_name_different_content_requests": n2 // 12, "same_name_same_content_requests": n2 // 40,
+            "different_dtype_same_name_requests": n2 // 60,
+            "initializer_requests_checked": n2 // 3, "new_initializer_inputs_checked": n2 // 2,
+            "app_via_swapped_variant": n2 // 12, "swapped_app_as_function": n2 // 120, "swapped_app_keep": n2 // 60,
+            "swapped_app_const_operand": n2 // 40, "swapped_app_new_initializer": n2 // 120, "swapped_app_custom_domain": n2 // 120,
+            "swapped_app_in_subgraph": n2 // 60, "keep_applications_checked": n2 // 12, "function_calls_checked": n2 // 12,
+            "guarded_applications_checked": n2 // 2, "pairs_direct_form": n2 // 60, "condition_rejected_near_miss": n2 // 60}
+
+
 def cases(tier, seed):
-    n = 400 if tier == "quick" else 12000
+    n, n2 = _sizes(tier)
     pairs = []
     i = 0
     while len(pairs) < n:
@@ -81,6 +151,21 @@ def cases(tier, seed):
                     if len(pairs) < n:
                         pairs.append({"kind": kind, "stratum": st, "k": k, "i": i})
         i += 1
+    # second block: every (kind, stratum) once per round, k rotates with the round; a third of the commute pairs go through the other
+    # public call form, rule.apply_to_model(model, commute=True)
+    i = 0
+    extra = []
+    while len(extra) < n2:
+        for a, kind in enumerate(KINDS2):
+            for b, st in enumerate(STRATA):
+                if len(extra) < n2:
+                    # k rotates with the round; commute hosts always get planted instances (about half of them swapped)
+                    q = {"kind": kind, "stratum": st, "k": ((1, 2, 3, 3) if is_commute(kind) else (0, 1, 2, 3))[(i + a + b) % 4], "i": i}
+                    if is_commute(kind) and (i + b) % 3 == 2:
+                        q["form"] = "direct"
+                    extra.append(q)
+        i += 1
+    pairs += extra
     # interleave so that every spec mixes kinds (balanced cost)
     specs = []
     nspec = (len(pairs) + PER_SPEC - 1) // PER_SPEC
@@ -94,7 +179,7 @@ def pattern_ast(kind):
     N, V = c06_gen.N, c06_gen.V
     if kind in ("reneg", "keep"):
         return {"nodes": [N("Neg", [V("x")])], "outs": [["o", 0, 0]]}
-    if kind in ("resub", "resub2", "init_fresh", "init_repeat", "init_clash"):
+    if kind in ("resub", "resub2", "init_fresh", "init_repeat", "init_clash") or kind in MULTI_CONST_KINDS:
         return {"nodes": [N("Sub", [V("x"), V("y")])], "outs": [["o", 0, 0]]}
     if kind == "swapadd":
         return {"nodes": [N("Add", [V("x"), V("y")])], "outs": [["o", 0, 0]]}
@@ -119,16 +204,43 @@ def pattern_ast(kind):
         # a computed value with TWO users inside the pattern: the extracted function body must stay in graph order
         return {"nodes": [N("Sub", [V("x"), V("y")]), N("Relu", [["o", 0, 0]]), N("Neg", [["o", 0, 0]]),
                           N("Add", [["o", 1, 0], ["o", 2, 0]])], "outs": [["o", 3, 0]]}
+    if kind in ("c_asfn", "c_keep", "c_init", "c_custom"):
+        # Add is commutative: with commute=True the rule must also take Add(y, Relu(x))
+        return {"nodes": [N("Relu", [V("x")]), N("Add", [["o", 0, 0], V("y")])], "outs": [["o", 1, 0]]}
+    if kind in ("c_mul1", "c_cond"):
+        # c_cond: the rule itself is written Mul(x, c) + a condition function "c is the constant 1"; this AST is what it means
+        return {"nodes": [N("Mul", [V("x"), ["c", 1.0]])], "outs": [["o", 0, 0]]}
     raise ValueError(kind)
 
 
-def make_rule(kind):
+class RuleNotes:
+    """What the replacement / condition functions of one rule observed while the rewriter ran them."""
+
+    def __init__(self):
+        self.requests = []       # [(replacement call index, requested name, requested bytes, dtype, returned ir.Value)]
+        self.calls = 0           # calls of the replacement function (each returns a replacement: one per logged "try")
+        self.cond_rejected = 0   # the condition function said no
+        self.runaway = False     # the replacement function was called more often than any generated host can justify
+        self.cond_ok = False     # the condition function has said yes since the last call of the replacement function
+        self.unconditioned = 0   # calls of the replacement function that were not preceded by a yes of the condition function
+
+
+class Runaway(RuntimeError):
+    pass
+
+
+MAX_REPLACEMENTS = 200   # hosts have < 100 nodes; a guarded rule whose guard is not consulted re-matches its own output for ever
+
+
+def make_rule(kind, notes=None):
     """-> (RewriteRule, AST, created-list).  The pattern callable is rendered from the AST (same text C06 uses)."""
     from onnxscript import ir
     from onnxscript.rewriter import pattern
 
+    notes = notes if notes is not None else RuleNotes()
     P = pattern_ast(kind)
-    src, _ = c06_gen.render(P)
+    src, _ = c06_gen.render(P if kind != "c_cond" else
+                            {"nodes": [c06_gen.N("Mul", [c06_gen.V("x"), c06_gen.V("c")])], "outs": [["o", 0, 0]]})
     ns = {"pattern": pattern}
     exec(src, ns)
     pat = ns["pat"]
@@ -137,10 +249,14 @@ def make_rule(kind):
     def mark(v):
         for x in (v if isinstance(v, (list, tuple)) else [v]):
             created.append(x.producer())
+        if len(created) > MAX_REPLACEMENTS:
+            notes.runaway = True
+            raise Runaway(f"c07: the replacement function was called more than {MAX_REPLACEMENTS} times on one host")
         return v
 
     def guard(context, **_):
-        return not any(context.root is n for n in created)
+        notes.cond_ok = not any(context.root is n for n in created)
+        return notes.cond_ok
 
     kw = {"name": f"c07_{kind}"}
     cond = None
@@ -172,6 +288,62 @@ def make_rule(kind):
         cond = guard
     elif kind == "custom":
         rep = lambda op, x, **_: op.Relu(x, _domain=c07_gen.CUSTOM_DOMAIN)  # noqa: E731
+    elif kind in MULTI_CONST_KINDS:
+        def ask(op, arr, name=None, tname=None):
+            """op.initializer(...) as a rule author calls it; what was asked for and what came back is noted for the oracle."""
+            val = op.initializer(ir.tensor(arr, name=tname), name=name)
+            notes.requests.append((notes.calls, name or tname, arr.tobytes(), str(arr.dtype), val))
+            return val
+
+        def rep(op, x, y, **_):
+            # Sub(Add(Mul(x, 1), 0), y) == Sub(x, y); the two constants are DIFFERENT, so they must stay two values
+            notes.calls += 1
+            one_a, zero_a = np.array(1.0, dtype=np.float32), np.array(0.0, dtype=np.float32)
+            if kind == "init2_distinct":
+                one, zero = ask(op, one_a, name=f"c07_one_{notes.calls}"), ask(op, zero_a, name=f"c07_zero_{notes.calls}")
+            elif kind == "init2_same":        # one explicit name for both: the engine keeps them apart (name, name_1)
+                one, zero = ask(op, one_a, name="c07_k"), ask(op, zero_a, name="c07_k")
+            elif kind == "init2_tname":       # no name= argument: the tensors' own (identical) name is used
+                one, zero = ask(op, one_a, tname="c07_t"), ask(op, zero_a, tname="c07_t")
+            elif kind == "init2_derived":     # both names derived from the matched value
+                one, zero = ask(op, one_a, name=f"{x.name}_k"), ask(op, zero_a, name=f"{x.name}_k")
+            elif kind == "init2_dtype":       # one name, numerically equal contents, DIFFERENT element types (Unsqueeze/Squeeze axes vs an addend)
+                ax_a, fz_a = np.array([0], dtype=np.int64), np.array([0.0], dtype=np.float32)
+                ax, fz = ask(op, ax_a, name="c07_z"), ask(op, fz_a, name="c07_z")
+                return mark(op.Sub(op.Add(op.Squeeze(op.Unsqueeze(x, ax), ax), fz), y))
+            elif kind == "init2_dup":         # the same name AND contents twice (may be shared) next to a different constant
+                one, one2, zero = ask(op, one_a, name="c07_one"), ask(op, one_a.copy(), name="c07_one"), ask(op, zero_a, name="c07_zero")
+                return mark(op.Sub(op.Add(op.Mul(op.Mul(x, one), one2), zero), y))
+            else:                             # const2: two Constant nodes
+                one, zero = op.Constant(value=ir.tensor(one_a)), op.Constant(value=ir.tensor(zero_a))
+            return mark(op.Sub(op.Add(op.Mul(x, one), zero), y))
+        cond = guard
+    elif kind == "c_asfn":
+        rep = lambda op, x, y, **_: op.ReluAdd(x, y, _domain=FUSED_DOMAIN)  # noqa: E731
+        kw["as_function"] = True
+    elif kind == "c_keep":
+        rep, cond = (lambda op, x, y, **_: mark(op.Add(y, op.Relu(x)))), guard
+        kw["remove_nodes"] = False
+    elif kind == "c_mul1":
+        rep = lambda op, x, **_: op.Identity(x)  # noqa: E731
+    elif kind == "c_cond":
+        def cond(context, x, c, **_):
+            t = c.const_value
+            ok = t is not None and t.numpy().size == 1 and float(t.numpy().reshape(())) == 1.0
+            if not ok:
+                notes.cond_rejected += 1
+            notes.cond_ok = ok
+            return ok
+        rep = lambda op, x, c, **_: op.Identity(x)  # noqa: E731
+    elif kind == "c_init":
+        def rep(op, x, y, **_):
+            notes.calls += 1
+            z = op.initializer(ir.tensor(np.array(0.0, dtype=np.float32)), name="c07_new_zero")
+            notes.requests.append((notes.calls, "c07_new_zero", np.array(0.0, dtype=np.float32).tobytes(), "float32", z))
+            return mark(op.Add(op.Relu(op.Add(x, z)), y))
+        cond = guard
+    elif kind == "c_custom":
+        rep, cond = (lambda op, x, y, **_: mark(op.Add(op.Relu(x, _domain=c07_gen.CUSTOM_DOMAIN), y))), guard
     elif kind == "asfn":
         rep = lambda op, x, y, **_: op.SubRelu(x, y, _domain="c07.fused")  # noqa: E731
         kw["as_function"] = True
@@ -180,8 +352,31 @@ def make_rule(kind):
         kw["as_function"] = True
     else:
         raise ValueError(kind)
+    if cond is not None:
+        inner = rep
+
+        def rep(op, **b):   # noqa: F811
+            # a rule fires only where its condition function agrees: every replacement is built right after a yes
+            if not notes.cond_ok:
+                notes.unconditioned += 1
+                return None     # refuse (the documented way for a replacement function to decline)
+            notes.cond_ok = False
+            return inner(op, **b)
     rule = pattern.RewriteRule(pat, rep, cond, **kw)
+    rule.c07_notes = notes
     return rule, P, created
+
+
+def apply_rule(model, rule, kind, form="ruleset"):
+    """Run the real rewriter through one of its public call forms; returns the rewritten model."""
+    from onnxscript.rewriter import pattern, rewrite
+
+    if not is_commute(kind):
+        return rewrite(model, [rule])
+    if form == "direct":   # in place, ir.Model only
+        rule.apply_to_model(model, commute=True)
+        return model
+    return rewrite(model, pattern.RewriteRuleSet([rule], commute=True))
 
 
 # ----------------------------------------------------------------------------- monitor
@@ -330,8 +525,8 @@ def c06_hosts(model, only_functions=None):
     return out
 
 
-def strict_instances(P, hosts, removable, skip_functions=False):
-    """Strict instances as frozensets of node names (hosts built with names=True)."""
+def strict_instances(P, hosts, removable, skip_functions=False, commute=False, lax=False):
+    """Strict (or lax) instances as frozensets of node names (hosts built with names=True)."""
     out = set()
     root_op = P["nodes"][P["outs"][0][1]]["op"]
     for w, G in hosts:
@@ -341,13 +536,13 @@ def strict_instances(P, hosts, removable, skip_functions=False):
         for r, n in enumerate(G["nodes"]):
             if n["op"] != root_op or n["domain"] != "":
                 continue
-            s, _ = c06_spec.match_spec(P, G, r, removable, False, idx)
-            for inst in s:
+            s, l = c06_spec.match_spec(P, G, r, removable, commute, idx)
+            for inst in (l if lax else s):
                 out.add(frozenset(G["nodes"][i].get("name") or f"?{i}" for i in inst[1]))
     return out
 
 
-def instance_exists(P, hosts, removable, skip_functions=False):
+def instance_exists(P, hosts, removable, skip_functions=False, commute=False):
     """-> (strict exists, lax exists, where-set)"""
     s_any = l_any = False
     where = set()
@@ -359,7 +554,7 @@ def instance_exists(P, hosts, removable, skip_functions=False):
         for r, n in enumerate(G["nodes"]):
             if n["op"] != root_op or n["domain"] != "":
                 continue
-            s, l = c06_spec.match_spec(P, G, r, removable, False, idx)
+            s, l = c06_spec.match_spec(P, G, r, removable, commute, idx)
             if s:
                 s_any = True
                 where.add(w)
@@ -449,12 +644,13 @@ def run_pair(p, seed, ev, viol):
     import onnx
 
     from onnxscript import ir
-    from onnxscript.rewriter import rewrite
 
     from . import runner, wellformed
     from .compare import compare_outputs
 
     kind, st, k = p["kind"], p["stratum"], p["k"]
+    form = p.get("form", "ruleset")
+    commute = is_commute(kind)
 
     def v(key, what, **detail):
         viol.append({"key": f"rule={kind};{key}", "what": f"[{kind}/{st}/k={k}/i={p['i']}] {what}", "detail": detail})
@@ -468,9 +664,8 @@ def run_pair(p, seed, ev, viol):
         try:
             built = c07_gen.make_host(rng, PLANT[kind], n_nodes=rng.randint(2, 7), k_plants=(k if k < 3 else rng.randint(3, 5)),
                                       subgraphs="cf" in st, functions="fn" in st, nested_only=(st == "cfonly"),
-                                      clash_name=(CLASH if kind == "init_clash" else None), custom_fn=(kind == "custom"),
-                                      prior_overload=({"asfn": "SubRelu", "asfn_diamond": "SubReluNeg"}[kind]
-                                                      if kind.startswith("asfn") and st != "cfonly" and rng.random() < 0.5 else None))
+                                      clash_name=(CLASH if kind == "init_clash" else None), custom_fn=(kind in ("custom", "c_custom")),
+                                      prior_overload=(ASFN[kind] if kind in ASFN and st != "cfonly" and rng.random() < 0.5 else None))
         except Exception as e:  # a generator bug must not be blamed on the repository
             hit("generator_error")
             ev.setdefault("_generr", f"{type(e).__name__}: {e}")
@@ -512,23 +707,58 @@ def run_pair(p, seed, ev, viol):
         _ORIG_NAMES.update(G["inputs"])
         for n in G["nodes"]:
             _ORIG_NAMES.update(n["out"])
-    removable = kind != "keep"
-    s_any, l_any, where_spec = instance_exists(P, hosts, removable, skip_functions=kind.startswith("init"))
-    if kind.startswith("init"):
-        l_any = instance_exists(P, hosts, removable)[1]
+    removable = not keeps_nodes(kind)
+    s_any, l_any, where_spec = instance_exists(P, hosts, removable, skip_functions=adds_init(kind), commute=commute)
+    if adds_init(kind):
+        l_any = instance_exists(P, hosts, removable, commute=commute)[1]
+    notes = rule.c07_notes
     # ---- run the real rewriter on the IR (identity-preserving), monitored
     model = ir.serde.deserialize_model(onnx.ModelProto.FromString(M_bytes))
     snap = snapshot(model)
     del LOG[:]
     c0 = dict(COUNTS)
     try:
-        res = rewrite(model, [rule])
+        res = apply_rule(model, rule, kind, form)
     except Exception as e:
         cause = e.__cause__ or e.__context__
+        if notes.runaway:
+            ign = [t for t in LOG if t["ev"] == "try" and any(t["root"] is n for n in created)]
+            if ign:
+                v("kind=condition_ignored;mech=runaway", f"the rule was applied more than {MAX_REPLACEMENTS} times on a host of "
+                  f"{len(snap['nodes'])} nodes; {len(ign)} application(s) at a node the rule's condition function refuses (a node the rule created)",
+                  model=M_bytes.hex()[:40000])
+            else:   # termination is not part of the property: not a verdict, but not a silent pass either (see finalize)
+                hit("runaway_unexplained")
+                ev.setdefault("_runaway", f"{kind}/{st}/k={k}/i={p['i']}")
+            return None
+        tr = [t for t in LOG if t["ev"] == "try"]
+        if tr and LOG[-1]["ev"] == "replace" and LOG[-1]["old_nodes"]:
+            # the exception came out of the splice: did the replacement consume a value that a matched (removed) node produces, i.e. was a
+            # pattern variable bound to a value in the interior of the match?
+            interior = {id(o) for n in tr[-1]["matched"] for o in n.outputs} - {id(o) for o in tr[-1]["old_out"]}
+            if any(x is not None and id(x) in interior for n in tr[-1]["new_nodes"] for x in n.inputs):
+                root = e
+                while (root.__cause__ or root.__context__) is not None:
+                    root = root.__cause__ or root.__context__
+                v("kind=raises;mech=variable_bound_to_interior_value", f"rewrite() raises {type(e).__name__} <- {type(root).__name__}: {str(root)[:200]}: an input "
+                  f"variable of the pattern is bound to the output of a matched node (e.g. Add(r, r) with r = Relu(a) for Add(Relu(x), y)); the "
+                  f"replacement uses it and the matched node is removed all the same", model=M_bytes.hex()[:40000])
+                hit("raises_variable_bound_to_interior_value")
+                return None
         v(f"kind=raises;err={type(e).__name__}", f"rewrite() raises {type(e).__name__}: {str(e)[:300]}" +
           (f" <- {type(cause).__name__}: {str(cause)[:300]}" if cause is not None else ""), model=M_bytes.hex()[:40000])
         return None
+    if notes.unconditioned:
+        v("kind=condition_ignored", f"the replacement function was called {notes.unconditioned} time(s) for a match the rule's condition function "
+          f"had not accepted (no call of the condition function returning True since the previous replacement)", model=M_bytes.hex()[:40000])
+        return None
     hit("pairs_checked")
+    if kind in MULTI_CONST_KINDS:
+        hit("pairs_multi_const")
+    if commute:
+        hit("pairs_commute")
+        if form == "direct":
+            hit("pairs_direct_form")
     hit("try_rewrite_calls", COUNTS["try_rewrite_calls"] - c0["try_rewrite_calls"])
     apps = [r for r in LOG if r["ev"] == "replace"]
     tries = [r for r in LOG if r["ev"] == "try"]
@@ -589,6 +819,8 @@ def run_pair(p, seed, ev, viol):
     for t in tries:
         for n in t["matched"]:
             matched_all.add(id(n))
+
+    _second_block_checks(kind, P, hosts, snap, res, notes, removable, commute, after_nodes, v, hit, M_bytes, created)
 
     def resolve(val):
         seen = 0
@@ -669,16 +901,16 @@ def run_pair(p, seed, ev, viol):
     elif werr:
         invalid = True
         v("kind=invalid;mech=" + _invalid_mech(werr[0], kind), f"walker: {werr[0][:300]}", model=M_bytes.hex()[:40000])
-    if kind == "custom" and any(w in ("main", "sub") for w in app_where):
+    if kind in ("custom", "c_custom") and any(w in ("main", "sub") for w in app_where):
         doms = {o.domain for o in M2.opset_import}
         if c07_gen.CUSTOM_DOMAIN not in doms:
             v("kind=invalid;mech=opset_import_missing", f"replacement uses domain {c07_gen.CUSTOM_DOMAIN} but the model imports only {sorted(doms)}")
     # ---- every instance of the original whose nodes no application touched must not survive as an instance
     if not invalid:
-        before_inst = strict_instances(P, hosts, removable, skip_functions=kind.startswith("init"))
+        before_inst = strict_instances(P, hosts, removable, skip_functions=adds_init(kind), commute=commute)
         if before_inst:
             orig_fns = {(f.domain, f.name, f.overload) for f in M.functions}
-            after_inst = strict_instances(P, c06_hosts(M2, orig_fns), removable, skip_functions=kind.startswith("init"))
+            after_inst = strict_instances(P, c06_hosts(M2, orig_fns), removable, skip_functions=adds_init(kind), commute=commute)
             left = [i for i in before_inst & after_inst if all(nm and not nm.startswith("?") for nm in i)]
             hit("instances_in_original", len(before_inst))
             if left:
@@ -715,11 +947,11 @@ def run_pair(p, seed, ev, viol):
                         v("kind=value", f"result differs from the original on ORT: {d}", model=M_bytes.hex()[:40000])
                     break
     # proto path on a sample: same answer as the IR path
-    if p["i"] % 4 == 0:
+    if p["i"] % 4 == 0 and form != "direct":
         del LOG[:]
         rule2, _, _ = make_rule(kind)
         try:
-            M3 = rewrite(onnx.ModelProto.FromString(M_bytes), [rule2])
+            M3 = apply_rule(onnx.ModelProto.FromString(M_bytes), rule2, kind)
             hit("proto_path_checked")
             if M3.SerializeToString() != M2.SerializeToString() and [n.op_type for n in M3.graph.node] != [n.op_type for n in M2.graph.node]:
                 v("kind=proto_vs_ir", "rewrite(ModelProto) and rewrite(ir.Model) give different node sequences")
@@ -733,6 +965,104 @@ def run_pair(p, seed, ev, viol):
 
 
 _ORIG_NAMES: set = set()
+_SWAP_EVENT = {"c_asfn": "swapped_app_as_function", "c_keep": "swapped_app_keep", "c_mul1": "swapped_app_const_operand",
+               "c_cond": "swapped_app_const_operand", "c_init": "swapped_app_new_initializer", "c_custom": "swapped_app_custom_domain"}
+
+
+def _second_block_checks(kind, P, hosts, snap, res, notes, removable, commute, after_nodes, v, hit, M_bytes, created):
+    """Per application, from the monitor's log: the rule's settings held for the variant that fired (nodes kept if the rule keeps nodes,
+    the called function exists), every constant the replacement asked for is the constant it got and is consumed by the new nodes as a
+    registered initializer; reach counters for applications made through a swapped variant."""
+    pairs, last_try, ntry = [], None, 0
+    for r in LOG:
+        if r["ev"] == "try":
+            ntry += 1
+            last_try = (ntry, r)
+        elif r["ev"] == "replace":
+            pairs.append((last_try, r))
+            last_try = None
+    # ---- applications through a swapped variant (reach): the matched nodes are no instance of the pattern as written
+    if commute:
+        unswapped = strict_instances(P, hosts, removable, commute=False, lax=True)
+        orig_names = {rec["name"] for rec in snap["nodes"].values() if rec["name"]}
+        for t, a in pairs:
+            if t is None:
+                continue
+            names = [n.name for n in t[1]["matched"]]
+            if all(nm and nm in orig_names for nm in names) and frozenset(names) not in unswapped:
+                hit("app_via_swapped_variant")
+                hit(_SWAP_EVENT[kind])
+                if snap["graphs"].get(id(a["container"])) == "sub":
+                    hit("swapped_app_in_subgraph")
+        if notes.cond_rejected:
+            hit("condition_rejected_near_miss", notes.cond_rejected)
+    # ---- a rule fires only where its condition function agrees (the guarded kinds refuse the nodes they created)
+    if created:
+        for t, a in pairs:
+            if t is None:
+                continue
+            hit("guarded_applications_checked")
+            if any(t[1]["root"] is n for n in created):
+                v("kind=condition_ignored", f"the rule was applied at a {t[1]['root'].op_type} node although its condition function refuses that node "
+                  f"(a node the rule itself created)", model=M_bytes.hex()[:40000])
+    # ---- "none [removed] if the rule keeps nodes"
+    if not removable:
+        for _, a in pairs:
+            hit("keep_applications_checked")
+            if a["old_nodes"]:
+                v("kind=keep_rule_removed_nodes", f"the rule has remove_nodes=False but an application handed {len(a['old_nodes'])} matched node(s) "
+                  f"({[n.op_type for n in a['old_nodes']]}) to replace_nodes_and_values for removal", model=M_bytes.hex()[:40000])
+    # ---- "the functions the replacement needs are added"
+    fids = set(res.functions.keys())
+    for _, a in pairs:
+        for n in a["new_nodes"]:
+            if n.domain in ("", "ai.onnx") or id(n) not in after_nodes:
+                continue
+            hit("function_calls_checked")
+            if (n.domain, n.op_type, n.overload) not in fids:
+                v("kind=invalid;mech=function_missing", f"the replacement's node {n.domain}::{n.op_type} (overload {n.overload!r}) is in the result "
+                  f"but the model has no such function (functions: {sorted(fids)[:6]})", model=M_bytes.hex()[:40000])
+    # ---- "the initializers the replacement needs are added": what op.initializer was asked for is what it returned ...
+    by_call = {}
+    for call, name, data, dtype, val in notes.requests:
+        hit("initializer_requests_checked")
+        by_call.setdefault(call, []).append((name, data, dtype))
+        t = val.const_value
+        if t is None or t.numpy().tobytes() != data or str(t.numpy().dtype) != dtype:
+            got = None if t is None else t.numpy().tolist()
+            v("kind=initializer_request;mech=returned_other_constant", f"op.initializer(<{np.frombuffer(data, dtype=dtype).tolist()}>, name={name!r}) "
+              f"returned a value holding {got}", model=M_bytes.hex()[:40000])
+    for reqs in by_call.values():
+        for i, (nm, data, dtype) in enumerate(reqs):
+            for nm2, data2, dtype2 in reqs[:i]:
+                if nm2 == nm:
+                    hit("same_name_different_content_requests" if (data2, dtype2) != (data, dtype) else "same_name_same_content_requests")
+                    if dtype2 != dtype:
+                        hit("different_dtype_same_name_requests")
+    # ... and the nodes of the application consume exactly these constants, as initializers registered in an enclosing graph
+    for t, a in pairs:
+        if snap["graphs"].get(id(a["container"])) == "function" or t is None:
+            continue
+        if kind in MULTI_CONST_KINDS:
+            hit("multi_const_applications")
+        have = []
+        for n in a["new_nodes"]:
+            if id(n) not in after_nodes:
+                continue
+            for x in n.inputs:
+                if x is None or x.producer() is not None or x.is_graph_input() or x.const_value is None:
+                    continue
+                hit("new_initializer_inputs_checked")
+                have.append((x.const_value.numpy().tobytes(), str(x.const_value.numpy().dtype)))
+                if not any(getattr(g, "initializers", None) is not None and g.initializers.get(x.name) is x for g in _owner_chain(n.graph)):
+                    v("kind=invalid;mech=initializer_not_added", f"input '{x.name}' of the replacement's {n.op_type} node is a constant that is not "
+                      f"registered as an initializer of an enclosing graph", model=M_bytes.hex()[:40000])
+        intact = all(id(n) in after_nodes for n in a["new_nodes"])   # no later application took a node of this one away again
+        for nm, data, dtype in by_call.get(t[0], []):
+            if intact and (data, dtype) not in have:
+                v("kind=initializer_request;mech=constant_not_consumed", f"the replacement asked for the constant {np.frombuffer(data, dtype=dtype).tolist()} "
+                  f"(name {nm!r}) but no node of that application consumes an initializer with this content (they consume "
+                  f"{[np.frombuffer(d, dtype=dt).tolist() for d, dt in have]})", model=M_bytes.hex()[:40000])
 
 
 def _invalid_mech(msg, kind):
@@ -751,7 +1081,7 @@ def _invalid_mech(msg, kind):
             # the clashing name belongs to a value of the original model: a value created by the replacement shadows it
             return "new_value_shadows_existing_name"
         return "value_name_reused_across_scopes"
-    if "no opset registered for domain" in m and kind in ("asfn", "asfn_diamond"):
+    if "no opset registered for domain" in m and kind in ASFN:
         return "extracted_function_without_opset_import"
     if "opset import" in m or "is used but not imported" in m or "no opset import" in m or "no opset registered" in m:
         return "opset_import_missing"
@@ -790,5 +1120,8 @@ def finalize(ctx):
         ctx.extra["generator_notes"] = notes
     n = ctx.events.get("hosts_ok", 0) + ctx.events.get("discarded_invalid", 0) + ctx.events.get("discarded_unrunnable", 0) + \
         ctx.events.get("discarded_generator", 0)
+    if ctx.events.get("runaway_unexplained", 0):
+        ctx.inconclusive.append(f"{ctx.events['runaway_unexplained']} pair(s) stopped after more than {MAX_REPLACEMENTS} replacements on one host "
+                                f"although the rule's guard was consulted (first: {notes.get('_runaway')})")
     if n and ctx.events.get("hosts_ok", 0) < 0.7 * n:
         ctx.inconclusive.append(f"only {ctx.events.get('hosts_ok', 0)} of {n} generated hosts passed the precondition filter")
